@@ -141,6 +141,11 @@ def check(ctx):
             nontrivial.add(c["req"].split(" | ")[0] + "|" + st["events"])
     if first_div:
         ctx.broken_correspondence(first_div)
+    if prop == "C01" and not ctx.replay:
+        # the sim-kernel folds "descendants holding the pipe" into the child script; whether the library hands the child
+        # nothing but fds 0-2 of the pipes (so that end-of-file really follows the child's close) is checked on the real kernel
+        import pipeline
+        pipeline.extra_c01(ctx)
     cov["evaluations"] = len(cases)
     cov["traces_validated_against_impl"] = len(cases)
     cov["distinct_nontrivial"] = len(nontrivial)
